@@ -144,7 +144,9 @@ func (ww *workerWorld) checkStep(r *runner, recs []CommitRec) []Violation {
 				continue
 			}
 			var max uint64
-			since := ww.lastResetSeq()
+			// the reset that precedes this commit (several commits are examined per step: a state write that
+			// landed just before the reset's own update must not be judged against the reset)
+			since := ww.lastResetBefore(rec.Event)
 			ackedSet := map[uint64]bool{}
 			for _, a := range accepts {
 				if a.Acked && a.Ledger == p.Ledger && a.Seq >= since {
